@@ -86,6 +86,28 @@ func BytePool(r *rng.R, n int) [][]byte {
 		case 4: // random bytes
 			add(r.Bytes(r.Intn(13)))
 		case 5: // keys extending one another (never by 0x00 alone: see Storable)
+			if r.Chance(1, 6) {
+				// staircase: each key extends the previous one by a byte (a path of dozens of nested inner nodes)
+				cur := fromAlphabet(r, smallAlphabet, r.Intn(3))
+				steps := 34 + r.Intn(30)
+				for i := 0; i < steps; i++ {
+					cur = cat(cur, []byte{smallAlphabet[r.Intn(len(smallAlphabet))]})
+					add(cur)
+					if r.Chance(1, 3) {
+						add(cat(cur, []byte{'~'}, fromAlphabet(r, tinyAlphabet, r.Intn(2)))) // a sibling leaf at every level
+					}
+				}
+				continue
+			}
+			if r.Chance(1, 10) {
+				// very long keys sharing almost everything
+				base := fromAlphabet(r, smallAlphabet, rng.Pick(r, []int{900, 1500, 5000, 70000}))
+				for i := 0; i < 3; i++ {
+					add(cat(base, fromAlphabet(r, smallAlphabet, 1+r.Intn(3))))
+				}
+				add(cat(base[:len(base)/2], []byte("!x")))
+				continue
+			}
 			base := fromAlphabet(r, smallAlphabet, 1+r.Intn(4))
 			cur := base
 			for i := 0; i < 1+r.Intn(6); i++ {
@@ -202,6 +224,18 @@ func alphaKind[K chars](name string, slice bool) *Kind[K] {
 			}
 			return out
 		},
+		Fan2: func(r *rng.R) ([]K, int, []K) {
+			P := fromAlphabet(r, smallAlphabet, rng.Pick(r, []int{0, 2, 9, 12}))
+			b0 := 40 + r.Intn(180)
+			var upper, lower []K
+			for b := 1; b < 256; b++ {
+				upper = append(upper, K(cat(P, []byte{byte(b)}, []byte("u"))))
+			}
+			for c := 1; c < 256; c++ {
+				lower = append(lower, K(cat(P, []byte{byte(b0), byte(c)}, []byte("l"))))
+			}
+			return upper, b0 - 1, lower
+		},
 		Deepen: func(r *rng.R, a K) K {
 			return K(cat([]byte(a), []byte{rng.Pick(r, smallAlphabet)}, fromAlphabet(r, tinyAlphabet, r.Intn(2))))
 		},
@@ -223,6 +257,19 @@ func alphaKind[K chars](name string, slice bool) *Kind[K] {
 		for _, c := range cuts {
 			if c >= 0 && c <= len(b) {
 				out = append(out, K(append([]byte{}, b[:c]...)))
+			}
+		}
+		// a look-alike: one byte changed (often beyond the 10 inline bytes), then cut at
+		// every length from there on (ends inside / at the end of a path, at an inner node, at a leaf)
+		if len(b) > 1 {
+			c := append([]byte{}, b...)
+			i := r.Intn(len(c))
+			if len(c) > 11 {
+				i = 10 + r.Intn(len(c)-10)
+			}
+			c[i] ^= byte(1 << r.Intn(8))
+			for cut := i + 1; cut <= len(c) && cut <= i+24; cut++ {
+				out = append(out, K(append([]byte{}, c[:cut]...)))
 			}
 		}
 		out = append(out, K(cat(b, []byte{'a'})))               // longer than the key
